@@ -345,17 +345,44 @@ def prepare_clause(ck, r, tier):
             refs = [r.choice(pool) for _ in range(k)]
             mode = r.choice(["switch", "steps"])
 
-            def spec_for(rs):
+            # in "steps" mode some steps do not prepare at all (unparsable switchOn => PermFail ErrorStep) and
+            # labels may repeat (each repeat is itself a PermFail ErrorStep): every one of them must be kept
+            broken = [mode == "steps" and r.random() < 0.3 for _ in refs]
+            labels = [f"step-{i}" for i in range(k)]
+            if mode == "steps" and r.random() < 0.4:
+                j = r.randrange(1, k)
+                labels[j] = labels[r.randrange(0, j)]
+
+            def step_for(i, ref, label):
+                if broken[i]:
+                    return {"label": label, "refSwitch": {"switchOn": f"=parent.kind + (unbalanced {i}",
+                                                          "cases": [{"case": "x", **ref}]}}
+                return {"label": label, "ref": ref}
+
+            def spec_for(rs, single=None):
                 if mode == "switch":
                     cases = [{"case": f"c{i}", **ref} for i, ref in enumerate(rs)]
                     return {"steps": [{"label": "sw-step", "refSwitch": {"switchOn": "=parent.kind", "cases": cases}}]}
-                return {"steps": [{"label": f"step-{i}", "ref": ref} for i, ref in enumerate(rs)]}
+                if single is not None:
+                    return {"steps": [step_for(single, rs[0], f"step-{single}")]}
+                return {"steps": [step_for(i, refs[i], labels[i]) for i in (range(k) if rs is refs else perm_idx)]}
 
-            singles = [ready_obs(await prepare_workflow("agg-wf", spec_for([ref]))) for ref in refs]
-            combined = ready_obs(await prepare_workflow("agg-wf", spec_for(refs)))
-            perm = list(refs)
-            r.shuffle(perm)
-            combined_p = ready_obs(await prepare_workflow("agg-wf", spec_for(perm)))
+            perm_idx = list(range(k))
+            r.shuffle(perm_idx)
+            if mode == "switch":
+                singles = [ready_obs(await prepare_workflow("agg-wf", spec_for([ref]))) for ref in refs]
+                combined = ready_obs(await prepare_workflow("agg-wf", spec_for(refs)))
+                combined_p = ready_obs(await prepare_workflow("agg-wf", spec_for([refs[i] for i in perm_idx])))
+            else:
+                singles = [ready_obs(await prepare_workflow("agg-wf", spec_for([ref], single=i)))
+                           for i, ref in enumerate(refs)]
+                combined = ready_obs(await prepare_workflow("agg-wf", spec_for(refs)))
+                combined_p = combined if len(set(labels)) < k else \
+                    ready_obs(await prepare_workflow("agg-wf", spec_for(None)))
+                # a step whose label repeats an earlier one is not prepared at all: its outcome is the
+                # duplicate-label PermFail, not whatever the step alone would give
+                singles = [({"c": "permFail", "m": "Duplicate step-label"} if labels[i] in labels[:i] else singles[i])
+                           for i in range(k)]
             ck.evaluated()
             ck.count(f"prepare-aggregation:{mode}")
             if any("prepare" in x for x in singles + [combined, combined_p]):
@@ -365,7 +392,8 @@ def prepare_clause(ck, r, tier):
             winners = [x for x in singles if x["c"] == top]
             if len({x["c"] for x in singles}) > 1 or len(winners) > 1:
                 ck.nontriv(json.dumps(["prep", mode, refs], sort_keys=True))
-            case = {"mode": mode, "refs": refs, "singles": singles, "combined": combined}
+            case = {"mode": mode, "refs": refs, "labels": labels, "broken": broken, "singles": singles,
+                    "combined": combined}
             bad = None
             if combined["c"] != top:
                 bad = f"readiness class {combined['c']} but the most severe individual readiness is {top}"
